@@ -161,6 +161,7 @@ func c15StartReceiver(t *testing.T, auth bool, maxBody ...int64) *c15Recv {
 	cfg := f.CreateDefaultConfig().(*otlpreceiver.Config)
 	if len(maxBody) > 0 {
 		cfg.HTTP.ServerConfig.MaxRequestBodySize = maxBody[0]
+		cfg.GRPC.MaxRecvMsgSizeMiB = 1
 	}
 	cfg.GRPC.NetAddr.Endpoint = r.grpcAddr
 	cfg.HTTP.ServerConfig.Endpoint = r.httpAddr
@@ -473,8 +474,13 @@ func c15ProbeGrpc(r *c15Recv, sig string, body []byte, good bool) (code uint32, 
 	if good {
 		ctx = metadata.AppendToOutgoingContext(ctx, "authorization", "c15-secret")
 	}
+	return c15ProbeGrpcAt(ctx, r, c15Methods[sig], body)
+}
+
+// c15ProbeGrpcAt: a raw unary call to any method path, with extra call options (e.g. a compressor the server does not know)
+func c15ProbeGrpcAt(ctx context.Context, r *c15Recv, method string, body []byte, opts ...grpc.CallOption) (code uint32, ri string) {
 	var resp []byte
-	err := r.conn.Invoke(ctx, c15Methods[sig], body, &resp, grpc.ForceCodec(c15RawCodec{}))
+	err := r.conn.Invoke(ctx, method, body, &resp, append([]grpc.CallOption{grpc.ForceCodec(c15RawCodec{})}, opts...)...)
 	st := status.Convert(err)
 	ri = "-"
 	for _, d := range st.Details() {
@@ -483,6 +489,27 @@ func c15ProbeGrpc(r *c15Recv, sig string, body []byte, good bool) (code uint32, 
 		}
 	}
 	return uint32(st.Code()), ri
+}
+
+// c15XCompressor: a gRPC compressor only the CLIENT knows ("c15x"). It is given to a dedicated ClientConn through the legacy
+// dial option, NOT registered in grpc's process-wide encoding registry (which the receiver in this process would see too).
+type c15XCompressor struct{}
+
+func (c15XCompressor) Do(w io.Writer, p []byte) error { _, err := w.Write(p); return err }
+func (c15XCompressor) Type() string                   { return "c15x" }
+
+var c15XConns = map[string]*grpc.ClientConn{}
+
+func c15XConn(r *c15Recv) *grpc.ClientConn {
+	if c, ok := c15XConns[r.grpcAddr]; ok {
+		return c
+	}
+	c, err := grpc.NewClient(r.grpcAddr, grpc.WithTransportCredentials(insecure.NewCredentials()), grpc.WithCompressor(c15XCompressor{})) //nolint:staticcheck
+	if err != nil {
+		panic(err)
+	}
+	c15XConns[r.grpcAddr] = c
+	return c
 }
 
 var c15HTTPClient = &http.Client{Timeout: 10 * time.Second}
@@ -644,7 +671,10 @@ func c15Gen(rnd interface{ IntN(int) int }) c15Case {
 		c.raw = true
 		if rnd.IntN(4) == 0 {
 			c.tr = "grpc"
-			c.kind = []string{"badbody", "fine"}[rnd.IntN(2)]
+			c.kind = []string{"badbody", "fine", "badmethod", "badgrpcenc", "oversize", "badmethod+badbody", "badgrpcenc+badbody", "oversize+badbody"}[rnd.IntN(8)]
+			if strings.Contains(c.kind, "oversize") {
+				c.recv, c.auth = "small", "off"
+			}
 			return c
 		}
 		c.tr = "http"
@@ -893,8 +923,24 @@ func TestVerifC15(t *testing.T) {
 	authd := c15StartReceiver(t, true)
 	fakes := c15StartFakes(t)
 	small := c15StartReceiver(t, false, 4096)
+	t.Cleanup(func() {
+		for k, c := range c15XConns {
+			_ = c.Close()
+			delete(c15XConns, k)
+		}
+	})
 	exps := map[c15ExpKey]*c15Exp{}
 	corpus := append(c15Corpus(), c15BigCorpus()...)
+	// gRPC requests grpc-go answers itself: unknown method / service, unknown grpc-encoding, oversized message
+	for _, k := range []string{"badmethod", "badgrpcenc", "oversize", "badmethod+badbody", "badgrpcenc+badbody", "oversize+badbody"} {
+		cc := c15Case{raw: true, tr: "grpc", kind: k, sig: "logs", out: c15Outcome{kind: "ok"}, auth: "off"}
+		if strings.Contains(k, "oversize") {
+			cc.recv = "small"
+		}
+		corpus = append(corpus, cc)
+	}
+	corpus = append(corpus, c15Case{raw: true, tr: "grpc", kind: "badmethod", sig: "traces", out: c15Outcome{kind: "ok"}, auth: "bad"},
+		c15Case{raw: true, tr: "grpc", kind: "badgrpcenc", sig: "metrics", out: c15Outcome{kind: "ok"}, auth: "bad"})
 	// the profiles signal on every transport/encoding, with an error outcome and with zero samples
 	for _, te := range [][2]string{{"grpc", "-"}, {"http", "pb"}, {"http", "json"}} {
 		corpus = append(corpus,
@@ -1081,14 +1127,47 @@ func c15ModelKind(kind string) (string, bool) {
 func c15Raw(out *vOut, r *c15Recv, c c15Case, good bool, rnd interface{ IntN(int) int }) {
 	p := c15MakePayload(c.sig, 1, false, "raw")
 	mk, isBad := c15ModelKind(c.kind)
+	if c.tr == "grpc" {
+		mk = c.kind // the gRPC stages have their own vocabulary in the model
+	}
 	out.Linef("op raw tr=%s kind=%s auth=%s out=%s how=%s", c.tr, mk, c.auth, c.out.token(), c.kind)
 	before, _ := r.sink.snapshot()
 	if c.tr == "grpc" {
 		body := p.pb
-		if c.kind == "badbody" {
-			body = [][]byte{{0x0a, 0xff}, {0xff, 0xff, 0xff, 0xff}, {0x0a, 0x05, 0x01}}[rnd.IntN(3)]
+		method := c15Methods[c.sig]
+		var opts []grpc.CallOption
+		useX := false
+		for _, k := range strings.Split(c.kind, "+") {
+			switch k {
+			case "badbody":
+				body = [][]byte{{0x0a, 0xff}, {0xff, 0xff, 0xff, 0xff}, {0x0a, 0x05, 0x01}}[rnd.IntN(3)]
+			case "badmethod":
+				method = []string{strings.TrimSuffix(method, "Export") + "Nope", "/c15.unknown.Service/Export", "/opentelemetry.proto.collector.logs.v2.LogsService/Export"}[rnd.IntN(3)]
+			case "badgrpcenc":
+				useX = true
+			}
 		}
-		code, _ := c15ProbeGrpc(r, c.sig, body, good)
+		if strings.Contains(c.kind, "oversize") {
+			// larger than max_recv_msg_size_mib (1 MiB on this receiver)
+			if strings.Contains(c.kind, "badbody") {
+				body = bytes.Repeat([]byte{0xff}, 1<<20+4096)
+			} else {
+				big := plog.NewLogs()
+				big.ResourceLogs().AppendEmpty().ScopeLogs().AppendEmpty().LogRecords().AppendEmpty().Body().SetStr(strings.Repeat("x", 1<<20+4096))
+				body, _ = plogotlp.NewExportRequestFromLogs(big).MarshalProto()
+				method = c15Methods["logs"]
+			}
+		}
+		ctx, cancel := context.WithTimeout(context.Background(), 10*time.Second)
+		if good {
+			ctx = metadata.AppendToOutgoingContext(ctx, "authorization", "c15-secret")
+		}
+		rr := r
+		if useX {
+			rr = &c15Recv{grpcAddr: r.grpcAddr, conn: c15XConn(r)}
+		}
+		code, _ := c15ProbeGrpcAt(ctx, rr, method, body, opts...)
+		cancel()
 		after, _ := r.sink.snapshot()
 		out.Linef("obs raw code=%d calls=%d", code, after-before)
 		if after-before > 0 && c.kind != "fine" {
